@@ -104,5 +104,14 @@ def decode (rp : Repairs) (st : DState) (sc : Script) (f : RErr) : DecodeRes V Ã
             (.value v, finish { st2 with scanp :=
               if rp.pos then s' + (if rp.clamp then min n (e - s') else n) else e }, sc2, f2)
 
+/-- everything repeated `Decode` calls return on a fresh decoder with the repairs `rp` -/
+def outputs (rp : Repairs) (sc : Script) (f : RErr) : List V Ã— Stop :=
+  run (decode dec rp) ((concat sc).length + 1) {} sc f
+
 end Patched
+
+/-- the repairs present in /repo HEAD (commits a42bc85, 4c2a9a8, 2781d4b, 105fdc7, c7adce7, 8414582) -/
+def Repairs.head : Repairs :=
+  { closer := true, trunc := true, split := true, inval := true, pos := true, clamp := true }
+
 end SonicSpec.IO
